@@ -5,7 +5,7 @@ emitted circuit contains a mid-circuit measurement (MidMeasure or Pauli-product 
 emitted circuit is run by the branch interpreter vf.dynsim.general_branch with the measurement OUTCOMES AS SOLVER VARIABLES
 m_i (m_i * (m_i - 1) == 0): a computational measurement projects with (1-m) P0 + m P1 (+ reset), a Pauli-product measurement with
 (1 + (1-2m) P)/2, a classically controlled operation is applied iff its condition holds - a solver-decided fork.  Dynamically
-allocated work wires start in |0>.  With K(m) the resulting linear map from the operator's wires to operator wires x work wires,
+allocated work wires start in |0> when requested in the zero state and in an ARBITRARY (symbolic) state when requested in any state.  With K(m) the resulting linear map from the operator's wires to operator wires x work wires,
 z3 proves for ALL outcome vectors m:
     K(m)[r, a, c] * U[r0, c0] == U[r, c] * K(m)[r0, a, c0]     (same unitary U on every branch, times a work-wire vector v(m)),
     v(m) is proportional to v(0...0)                            (work wires end in one known state, whatever the outcomes),
@@ -60,21 +60,32 @@ def emitted(cname, rname):
     rule = [r for r in qp.list_decomps(op) if r.name == rname][0]
     em = c10.apply_rule(op, rule)
     t = qp.tape.QuantumScript(em)
+    any_state = []
     if any(o.name in ("Allocate", "Deallocate") for o in em):
+        # the declared allocation state is part of the rule's contract: a wire requested in "any" state may hold an arbitrary state
+        flags = [str(o.hyperparameters.get("state")).lower().endswith("zero") for o in em if o.name == "Allocate" for _ in o.wires]
         (t,), _ = qp.transforms.resolve_dynamic_wires(t, min_int=100)
+        aux = [w for w in t.wires if w not in op.wires]
+        any_state = [w for w, z in zip(aux, flags + [True] * len(aux)) if not z]
+    t._verif_any_state = any_state
     return op, t
 
 
-def kraus(op, t, assignment):
+def kraus(op, t, assignment, aux_amps=None):
+    """aux_amps: {work wire: (alpha, beta)} for work wires allocated in an arbitrary state (default |0>)"""
     wo = list(op.wires)
     aux = [w for w in t.wires if w not in wo]
     Wt = wo + aux
     n, d = 2 ** len(wo), 2 ** len(aux)
     cols = c10.domain_columns(op, n) or list(range(n))
     K = np.zeros((n * d, n), dtype=object)
+    aux_vec = np.array([1], dtype=object)
+    for w in aux:
+        a, b = (aux_amps or {}).get(w, (1, 0))
+        aux_vec = np.kron(aux_vec, np.array([a, b], dtype=object))
     for c in cols:
         psi0 = np.zeros(n * d, dtype=object)
-        psi0[c * d] = 1
+        psi0[c * d:(c + 1) * d] = aux_vec
         K[:, c] = dynsim.general_branch(t, Wt, assignment, psi0=psi0)
     return K.reshape(n, d, n), cols, n, d
 
@@ -83,10 +94,11 @@ def _num(cname, rname, bits):
     op, t = emitted(cname, rname)
     ms = dynsim.mcms_of(t)
     asg = dict(zip(ms, [int(b) for b in bits]))
-    K, cols, n, d = kraus(op, t, asg)
+    amps = {w: (0.6, 0.8j) for w in getattr(t, "_verif_any_state", [])}
+    K, cols, n, d = kraus(op, t, asg, amps)
     K = np.asarray(K, dtype=complex)
     U = np.asarray(qp.matrix(op, wire_order=list(op.wires)), dtype=complex)
-    K0 = np.asarray(kraus(op, t, dict(zip(ms, [0] * len(ms))))[0], dtype=complex)
+    K0 = np.asarray(kraus(op, t, dict(zip(ms, [0] * len(ms))), amps)[0], dtype=complex)
     r0, c0 = next((r, c) for c in cols for r in range(n) if abs(U[r, c]) > 1e-9)
     v = K[r0, :, c0] / U[r0, c0]
     v0 = K0[r0, :, c0] / U[r0, c0]
@@ -114,8 +126,9 @@ def work(item):
             v = S.real(f"m{i}")
             S.constrain("==0", sx.P.sub(sx.P.mul(v.p, v.p, S.V), v.p))
             bits.append(v)
-        K, cols, n, d = kraus(op, t, dict(zip(ms, bits)))
-        K0 = kraus(op, t, dict(zip(ms, [0] * len(ms))))[0]
+        amps = {w: (S.cplx(f"w{w}_0"), S.cplx(f"w{w}_1")) for w in getattr(t, "_verif_any_state", [])}
+        K, cols, n, d = kraus(op, t, dict(zip(ms, bits)), amps)
+        K0 = kraus(op, t, dict(zip(ms, [0] * len(ms))), {w: (0.6, 0.8j) for w in amps})[0]
         U = sx.arr(np.asarray(qp.matrix(op, wire_order=list(op.wires)), dtype=object), S)
         return op, K, K0, U, cols, n, d, len(ms)
 
